@@ -60,7 +60,7 @@ def plan(tier, seed):
 
 def floors(tier):
     return {'evaluations': 2000, 'distinct_nontrivial': 20000, 'legacy_calls_compared': 100000,
-            'spelling_parses_compared': 15000, 'histkeys:method': 11, 'histkeys:spelling': 8,
+            'spelling_parses_compared': 15000, 'args_math_mode_parses_compared': 2000, 'histkeys:method': 11, 'histkeys:spelling': 8,
             'histkeys:argspec': 121, 'k4_witness_checked': 1, 'optarg_views_checked': 2000,
             'histkeys:env_is_math_mode': 3, 'histkeys:get_token_parsing_state': 7, 'hist:call_context:bracket': 300, 'hist:call_context:math': 100}
 
@@ -563,7 +563,36 @@ def check_specs(argspec, calls, rng, rec):
                         if not closing_brace_case:
                             errs.append((name, s, 'spelling %s accepts %r (argspec %r) where MacroSpec(name, %r) fails: %s'
                                          % (name, s, argspec, argspec, ref[1])))
+        # the legacy per-argument math mode list (args_math_mode: True / False / None = unchanged) against per-argument
+        # enter / leave math mode deltas; the recorded *delimiter* inside such an argument is not compared (the legacy
+        # parser keeps the enclosing formula's, the deltas reset it -- the statement does not say which), the mode is
+        if argspec:
+            from pylatexenc.latexnodes import LatexArgumentSpec, ParsingStateDeltaEnterMathMode, ParsingStateDeltaLeaveMathMode
+            modes = [rng.choice([None, None, True, False]) for _ in argspec]
+            rec.hist('args_math_mode', ''.join('-' if m is None else 'TF'[not m] for m in modes))
+            deltas = [None if m is None else (ParsingStateDeltaEnterMathMode() if m else ParsingStateDeltaLeaveMathMode())
+                      for m in modes]
+            newm = MacroSpec('foo', [LatexArgumentSpec(c, parsing_state_delta=d) for c, d in zip(argspec, deltas)])
+            oldm = MacroSpec('foo', args_parser=MacroStandardArgsParser(argspec, args_math_mode=list(modes)))
+            for tol in (False, True):
+                a = parse_with_spec(s, newm, EnvironmentSpec('E', argspec), tol)
+                b = parse_with_spec(s, oldm, EnvironmentSpec('E', argspec), tol)
+                rec.monitor('args_math_mode_parses_compared')
+                if b[0] == 'EXC':
+                    errs.append(('args_math_mode', s, 'MacroStandardArgsParser(%r, args_math_mode=%r) raised %s on %r (tolerant=%r)'
+                                 % (argspec, modes, b[1], s, tol)))
+                elif a[0] == 'ok' and _modes_only(a[:2]) != _modes_only(b[:2]):
+                    errs.append(('args_math_mode', s, 'MacroStandardArgsParser(%r, args_math_mode=%r) parses %r (tolerant=%r) as %s, '
+                                 'per-argument enter/leave-math-mode deltas as %s' % (argspec, modes, s, tol, _brief(b[:2]), _brief(a[:2]))))
     return errs
+
+
+def _modes_only(d):
+    if isinstance(d, (list, tuple)):
+        return [_modes_only(x) for x in d]
+    if isinstance(d, dict):
+        return {k: (v[0] if k == 'ps' and v is not None else _modes_only(v)) for k, v in d.items()}
+    return d
 
 
 def check_case(case, rec):
